@@ -661,10 +661,12 @@ func controllerCount(doc map[string]any) int {
 // applyMerge is the model of server-side apply onto an existing document:
 // objects merge field by field, scalars and lists are replaced, and owner
 // references are merged by UID.
-func applyMerge(dst, applied map[string]any) {
+func applyMerge(dst, applied map[string]any) { applyMergeAt(dst, applied, true) }
+
+func applyMergeAt(dst, applied map[string]any, top bool) {
 	for k, v := range applied {
-		if k == "metadata" {
-			continue
+		if top && k == "metadata" {
+			continue // object metadata is merged by applyMetadata
 		}
 		pm, isMap := v.(map[string]any)
 		if !isMap {
@@ -676,7 +678,7 @@ func applyMerge(dst, applied map[string]any) {
 			dm = map[string]any{}
 			dst[k] = dm
 		}
-		applyMerge(dm, pm)
+		applyMergeAt(dm, pm, false)
 	}
 }
 
